@@ -33,6 +33,7 @@ Hunks == [oc : OCounts, ocShown : BOOLEAN, ns : Starts, nc : Counts,
           ncShown : BOOLEAN, heading : Headings, body : Bodies]
 WFHunk(h) == /\ (h.nc # 1 => h.ncShown) /\ (h.oc # 1 => h.ocShown)
              /\ (h.body = "plus3" => h.nc > 0)
+             /\ (h.body = "minus3" => h.oc > 0)    \* a REMOVED line whose text is `-- x`: `--- x`
 GoodHunks == {h \in Hunks : WFHunk(h)}
 
 RECURSIVE SeqsUpTo(_, _)
@@ -47,7 +48,8 @@ LinesOfHunk(h) ==
   <<[k |-> "hunk", first |-> [s |-> h.ns, c |-> IF h.ncShown THEN h.nc ELSE 99],
      last  |-> IF h.heading = "plusnum" THEN [s |-> 7, c |-> 99]
                ELSE [s |-> h.ns, c |-> IF h.ncShown THEN h.nc ELSE 99]]>>
-  \o (IF h.body = "plus3" THEN <<[k |-> "plus3", path |-> OtherPath]>> ELSE <<[k |-> "text"]>>)
+  \o (IF h.body = "plus3" THEN <<[k |-> "plus3", path |-> OtherPath]>>
+      ELSE IF h.body = "minus3" THEN <<[k |-> "minus3"]>> ELSE <<[k |-> "text"]>>)
 
 RECURSIVE LinesOfHunks(_, _)
 LinesOfHunks(hs, j) == IF j > Len(hs) THEN <<>> ELSE LinesOfHunk(hs[j]) \o LinesOfHunks(hs, j + 1)
